@@ -74,3 +74,40 @@ def rand_ts(rng):
         return [f2b(rng.choice([0.5, 1.5, 2.0])), 0, 0, f2b(rng.choice([0.75, 1.25])), f2b(rng.uniform(-4, 4)), f2b(rng.uniform(-4, 4))]
     a = rng.uniform(0, 6.28)
     return [f2b(math.cos(a)), f2b(-math.sin(a)), f2b(math.sin(a)), f2b(math.cos(a)), f2b(rng.uniform(5, 25)), f2b(rng.uniform(5, 25))]
+
+
+def lopsided_cubic_ops(rng, w, h, grid=GRID):
+    """one large cubic whose control points deviate from the chord by very different amounts (one sits on or next to
+    the chord's third-point, the other far away), optionally closed by a line: the subdivision count must come from the
+    larger deviation"""
+    L = rng.uniform(0.6, 0.95) * w
+    dev = rng.uniform(0.35, 0.9) * h * rng.choice([-1, 1])
+    x0 = (w - L) / 2
+    y0 = h / 2 - dev / 2 * rng.uniform(0.2, 0.9)
+    a, b = (x0, y0), (x0 + L, y0 + rng.uniform(-0.1, 0.1) * h)
+    third = lambda t: (a[0] + t * (b[0] - a[0]), a[1] + t * (b[1] - a[1]))
+    near = rng.choice([0.0, 0.0, 1.0, -2.0])
+    if rng.random() < 0.5:
+        c1 = (third(1 / 3)[0], third(1 / 3)[1] + near)
+        c2 = (third(2 / 3)[0] + rng.uniform(-0.1, 0.1) * L, third(2 / 3)[1] + dev * 1.5)
+    else:
+        c1 = (third(1 / 3)[0] + rng.uniform(-0.1, 0.1) * L, third(1 / 3)[1] + dev * 1.5)
+        c2 = (third(2 / 3)[0], third(2 / 3)[1] + near)
+    v = rng.random()
+    if v < 0.5:
+        # the deviation of the curve at t = 1/3 (or 2/3) vanishes exactly: 8a - 15b + 6c + d = 0 (or a + 6b - 15c + 8d = 0)
+        # in the coordinate that bends; the other deviation is large and of either sign
+        far = (third(0.5)[0] + rng.uniform(-0.2, 0.2) * L, third(0.5)[1] + dev * 1.5)
+        if v < 0.25:
+            c2 = far
+            c1 = tuple((8 * a[k] + 6 * c2[k] + b[k]) / 15 for k in (0, 1))
+        else:
+            c1 = far
+            c2 = tuple((a[k] + 6 * c1[k] + 8 * b[k]) / 15 for k in (0, 1))
+    pts = [a, c1, c2, b]
+    if rng.random() < 0.5:
+        pts.reverse()
+    if rng.random() < 0.4:   # swap the axes: a mostly vertical cubic
+        pts = [(p[1] * w / h, p[0] * h / w) for p in pts]
+    ops = [0, g(pts[0][0], grid), g(pts[0][1], grid), 3] + [v for p in pts[1:] for v in (g(p[0], grid), g(p[1], grid))]
+    return ops
